@@ -118,12 +118,16 @@ func runConcMembers(c *CCase) {
 	for _, p := range m.Pre.Players {
 		present = append(present, p.ID)
 	}
+	// who may re-buy and who may leave in this burst are different players: somebody who left and came back within the burst
+	// holds a seat nobody observed (he may be gone again), and the explanation by orders needs every drawn seat
+	stay := present[:len(present)/2]
+	present = present[len(present)/2:]
 	for i := 0; i < c.N; i++ {
 		var op TMOp
 		switch x := r.Intn(12); {
-		case x < 2 && len(present) > 0:
-			// a re-buy of somebody who is at the table (possibly while somebody else leaves)
-			op = TMOp{Kind: "reserve", Join: &TMJoin{ID: present[r.Intn(len(present))], Chips: int64(1 + r.Intn(500)), Seat: -1}}
+		case x < 2 && len(stay) > 0:
+			// a re-buy of somebody who is at the table (while others leave)
+			op = TMOp{Kind: "reserve", Join: &TMJoin{ID: stay[r.Intn(len(stay))], Chips: int64(1 + r.Intn(500)), Seat: -1}}
 		case x < 6:
 			seat := -1
 			if r.Chance(1, 3) {
